@@ -102,6 +102,24 @@ func c11Shapes() []c11Shape {
 			[]c11Listener{{"C0", 0, "B0", false}, {"C1", 1, "B1", false}},
 			map[string][]int{"A": {1}}, []string{"A", "B0", "B1"}})
 	}
+	{ // re-armed: start -> F -> {C0(e0) ; A -> C0} ; C0 -> B0 -> end : two tokens reach the same catch event, together or one after the other
+		p := &Prog{}
+		p.Node("start", "start")
+		p.Node("par", "F")
+		p.Node("task", "A")
+		c11Catch(p, "C0", 0, false)
+		p.Node("task", "B0")
+		p.Node("end", "end")
+		p.Flow("start", "F", "")
+		p.Flow("F", "C0", "")
+		p.Flow("F", "A", "")
+		p.Flow("A", "C0", "")
+		p.Flow("C0", "B0", "")
+		p.Flow("B0", "end", "")
+		out = append(out, c11Shape{"re-armed", p, extra, nil,
+			[]c11Listener{{"C0", 0, "B0", false}},
+			map[string][]int{"": {0}, "A": {0}}, []string{"A", "B0", "B0"}})
+	}
 	return out
 }
 
@@ -122,14 +140,27 @@ func c11Run(sh c11Shape, ops []string) c11Obs {
 	in, err := StartInst(defs, InstOpt{Vars: sh.vars})
 	must(err)
 	defer in.Close()
-	armedSeen := make([]int, len(sh.listeners))
+	armedSeen := make([]int, len(sh.listeners)) // tokens that have arrived at the listener so far
+	acts := make([]int, len(sh.listeners))      // times the listener went from idle to listening
 	waitArm := func(ls []int) {
 		for _, li := range ls {
 			want := armedSeen[li] + 1
 			node := sh.listeners[li].node
-			if !in.WaitUntil(tmoStep, func(l []Ev) bool { return countEv(l, "listening", node) >= want }) {
-				o.stuck = "listener " + node + " never started listening"
+			wasWaiting := armedSeen[li] - countEv(in.Log(), "task", sh.listeners[li].after)
+			if !in.WaitUntil(tmoStep, func(l []Ev) bool { return countEv(l, "visit", node) >= want }) {
+				o.stuck = "no token arrived at listener " + node
 				return
+			}
+			if wasWaiting <= 0 {
+				// the node announces that it listens (again); a token joining one that already waits is not announced
+				acts[li]++
+				wantL := acts[li]
+				if !in.WaitUntil(tmoStep, func(l []Ev) bool { return countEv(l, "listening", node) >= wantL }) {
+					o.stuck = "listener " + node + " never started listening"
+					return
+				}
+			} else {
+				time.Sleep(5 * time.Millisecond) // the token's request is queued right after its visit trace
 			}
 			armedSeen[li] = want
 			o.msgs[li] = append(o.msgs[li], 0)
@@ -203,7 +234,7 @@ func c11Run(sh c11Shape, ops []string) c11Obs {
 	o.log = in.Log()
 	for li, l := range sh.listeners {
 		o.conts[li] = countEv(o.log, "task", l.after)
-		o.waiting[li] = countEv(o.log, "listening", l.node) - o.conts[li]
+		o.waiting[li] = countEv(o.log, "visit", l.node) - o.conts[li]
 	}
 	return o
 }
